@@ -488,6 +488,63 @@ func timeoutFields(p *pkg) []string {
 	return out
 }
 
+// calleesIn lists the printed callees of every call in fd, in source order (arguments before the call that uses them is
+// not guaranteed: this is ast.Inspect's pre-order).
+func calleesIn(fd *ast.FuncDecl) []string {
+	var out []string
+	if fd == nil {
+		return nil
+	}
+	ast.Inspect(fd.Body, func(n ast.Node) bool {
+		if ce, ok := n.(*ast.CallExpr); ok {
+			out = append(out, types.ExprString(ce.Fun))
+		}
+		return true
+	})
+	return out
+}
+
+// literalField returns the printed value of field `name` in the first composite literal inside fd that has it.
+func literalField(fd *ast.FuncDecl, name string) (string, bool) {
+	res, found := "", false
+	if fd == nil {
+		return "", false
+	}
+	ast.Inspect(fd.Body, func(n ast.Node) bool {
+		if kv, ok := n.(*ast.KeyValueExpr); ok && !found {
+			if id, ok := kv.Key.(*ast.Ident); ok && id.Name == name {
+				res, found = types.ExprString(kv.Value), true
+			}
+		}
+		return true
+	})
+	return res, found
+}
+
+// goStmts lists "<func>: go <callee>" for every go statement of the package ("go func" for a function literal).
+func goStmts(p *pkg) []string {
+	fns := p.allFuncs()
+	var keys []string
+	for k := range fns {
+		keys = append(keys, k)
+	}
+	sort.Strings(keys)
+	var out []string
+	for _, k := range keys {
+		ast.Inspect(fns[k].Body, func(n ast.Node) bool {
+			if g, ok := n.(*ast.GoStmt); ok {
+				c := "func"
+				if _, isLit := g.Call.Fun.(*ast.FuncLit); !isLit {
+					c = types.ExprString(g.Call.Fun)
+				}
+				out = append(out, k+": go "+c)
+			}
+			return true
+		})
+	}
+	return out
+}
+
 func strLit(e ast.Expr) (string, bool) {
 	if bl, ok := e.(*ast.BasicLit); ok && bl.Kind == token.STRING {
 		s, err := strconv.Unquote(bl.Value)
@@ -1020,6 +1077,11 @@ func main() {
 			e.strs("serverLimitCalls", append(limitCalls(s, nil), timeoutFields(s)...), true, nil, "server package: deadline / limit / socket-option calls and timeout fields (none)")
 			e.strs("serverHTTPServerFields", fields, true, nil, "server package: fields set in http.Server literals (none: no such literal)")
 		}
+		nid := s.methodDecl("proxy", "newID")
+		e.strs("newIDCallees", calleesIn(nid), nid != nil, []string{"p.Lock", "p.randGenerator.Int63", "p.Unlock", "sha256.Sum256", "[]byte", "fmt.Sprintf", "fmt.Sprintf"},
+			"server proxy.newID: what it calls (a draw from the proxy's random generator under the lock, hashed)")
+		seed, okSeed := literalField(s.funcDecl("newProxy"), "randGenerator")
+		e.strs("idGeneratorSeed", []string{seed}, okSeed, []string{"rand.New(rand.NewSource(time.Now().UnixNano()))"}, "server newProxy: the generator is seeded from the clock, so the IDs of two proxy instances differ")
 		sh := s.methodDecl("proxy", "ServeHTTP")
 		e.strs("frontendIDSources", assignedExprs(sh, "id"), sh != nil, []string{"p.newID()"}, "server proxy.ServeHTTP: every expression assigned to the request ID `id` (must be the proxy's own fresh draw)")
 		e.strs("frontendTableKeys", indexKeysAssigned(sh, "p.requests"), sh != nil, []string{"id"}, "server proxy.ServeHTTP: keys under which a pending request is entered into p.requests")
@@ -1115,6 +1177,18 @@ func main() {
 			} else {
 				e.missing = append(e.missing, "bridgeFrontendCopyLoops")
 			}
+		}
+		{
+			gs := goStmts(t)
+			for _, d := range []string{"utils/tcpbridge/tcp-bridge-frontend", "utils/tcpbridge/tcp-bridge-backend"} {
+				if mp, err := loadPkg(*repo, d); err == nil {
+					for _, g := range goStmts(mp) {
+						gs = append(gs, filepath.Base(d)+" "+g)
+					}
+				}
+			}
+			e.strs("bridgeGoroutines", gs, true, []string{"Handler: go func", "Handler: go func", "tcp-bridge-frontend main: go func", "tcp-bridge-frontend main: go func", "tcp-bridge-frontend main: go func"},
+				"utils/tcpbridge: every goroutine started (the two copy loops of each half and the frontend's per-connection goroutine: nothing else writes to or reads from a bridged connection)")
 		}
 		lc := limitCalls(t, map[string]bool{"WebsocketNetConn.SetDeadline": true})
 		for _, d := range []string{"utils/tcpbridge/tcp-bridge-frontend", "utils/tcpbridge/tcp-bridge-backend"} {
